@@ -15,6 +15,7 @@
 //	hostMethodBindsRecv / bindRecvCopies   a method value of a host value copies an addressable receiver when it is evaluated
 //	ifaceWrapRecvHeld      genInterfaceWrapper(Value) gives its method wrappers such a record (a copy of the converted value)
 //	assign* / return* / default* / nestedReadIdx   index expressions of the result stores per context
+//	defineXCell            aAssignX with `:=`: when the destination cell is re-created before the store
 //	branchDstIdx / branchStore   the branch arm of callBin (a host call used as a condition): the slot and on which outcomes it is written
 //	wrap* / getFunc*       shape of genFunctionWrapper / getFunc: frame allocation, argument base, `fr.data[lo:hi]`
 //
@@ -862,6 +863,50 @@ func main() {
 			note("deferCallSlice is used but not declared in interp/run.go")
 		}
 
+		// ---- aAssignX, `q, r := hp.F(…)` (defineXStmt, variable not redeclared): the destination cell is re-created before the result is
+		// stored, so that a pointer to / closure over the variable of an EARLIER execution keeps its value. Unconditionally?
+		defineCell := ".unrecognised"
+		{
+			var hits []*ast.IfStmt
+			for _, n := range findAll(cb, func(n ast.Node) bool {
+				is, ok := n.(*ast.IfStmt)
+				return ok && nospace(str(is.Cond)) == "n.anc.kind==defineXStmt&&!c.redeclared"
+			}) {
+				hits = append(hits, n.(*ast.IfStmt))
+			}
+			const alloc = "data[c.findex]=reflect.New(data[c.findex].Type()).Elem()"
+			if len(hits) != 1 {
+				note("aAssignX: %d `defineXStmt && !c.redeclared` blocks", len(hits))
+			} else {
+				body := hits[0].Body.List
+				mode := ".never"
+				for _, st := range body {
+					switch x := st.(type) {
+					case *ast.AssignStmt:
+						if nospace(str(x)) == alloc {
+							mode = ".always"
+						}
+					case *ast.IfStmt:
+						if len(x.Body.List) == 1 && nospace(str(x.Body.List[0])) == alloc && x.Else == nil {
+							if nospace(str(x.Cond)) == "!data[c.findex].IsZero()" {
+								mode = ".whenNonZero"
+							} else {
+								note("aAssignX: the cell is re-created under `%s`", str(x.Cond))
+								mode = ".unrecognised"
+							}
+						}
+					}
+				}
+				n := len(body)
+				if n < 2 || nospace(str(body[n-2])) != "data[c.findex].Set(out[i])" || nospace(str(body[n-1])) != "continue" ||
+					nospace(str(body[0])) != "data:=getFrame(f,c.level).data" {
+					note("aAssignX: shape of the defineX block not recognised")
+					mode = ".unrecognised"
+				}
+				defineCell = mode
+			}
+		}
+
 		// ---- the branch arm (`case fnext != nil:`): a host call used as a condition stores its bool result in its frame slot
 		// (`getFrame(f, level).data[index].SetBool(…)`, index := n.findex) and returns tnext / fnext. Which outcomes are stored?
 		branchStore, branchDst := ".unrecognised", ".unrecognised"
@@ -1337,6 +1382,7 @@ def facts : Facts :=
     returnDstIdx := %s,
     returnBaseIsChildPos := %s,
     defaultDstIdx := %s,
+    defineXCell := %s,
     branchDstIdx := %s,
     branchStore := %s,
     nestedReadIdx := %s,
@@ -1361,7 +1407,7 @@ def sourceHashes : List (String × String) :=
 end YaegiVerif.Generated.C07
 `, arms, common.LeanStrList(outerArms), recvGuard, recvGetMethod, rcvrCond, lo(variadicSub), argCmp, argElem, argSpread, defCmp, defElem,
 			"["+strings.Join(callArms, ", ")+"]", "["+strings.Join(fvArms, ", ")+"]", callArgArms, hostBind, bindCopies, cvGuard, cvCmp, lo(cvSub), cvThen, cvZero, cvElse,
-			deferCall, deferWrapBin, deferWrapCall, deferWrapKind, deferWrapVariadic, assignSrc, assignDst, retDst, retBase, defDst, branchDst, branchStore, nestedRead,
+			deferCall, deferWrapBin, deferWrapCall, deferWrapKind, deferWrapVariadic, assignSrc, assignDst, retDst, retBase, defDst, defineCell, branchDst, branchStore, nestedRead,
 			wrapFrame, wrapPerCall, recvAtCreation, recvHeldAtCall, ifaceHeld, getFuncPerCall, wrapBase, lo(wrapShift), lo(wLo), wHi, skipShort, lo(gLo), gHi, common.LeanStrList(notes), hashes)
 		return src, nil
 	})
